@@ -139,6 +139,85 @@ fn plan_only_block<T: Real>(pk: PK, lo: usize, hi: usize, rep: &mut Report) {
     }
 }
 
+/// One planner first asked for a few large lengths, then swept over small n: the bounds must still hold for every n.
+fn primed_sweep_cnt(bigs: &[usize], nmax: usize, rep: &mut Report) {
+    let mut pl = FftPlanner::<Cnt>::new();
+    for &b in bigs {
+        let _ = std::panic::catch_unwind(std::panic::AssertUnwindSafe(|| {
+            pl.plan_fft(b, FftDirection::Forward);
+            pl.plan_fft(b, FftDirection::Inverse);
+        }));
+    }
+    for n in 2..=nmax {
+        let d = if n % 2 == 0 { FftDirection::Forward } else { FftDirection::Inverse };
+        let f = match std::panic::catch_unwind(std::panic::AssertUnwindSafe(|| pl.plan_fft(n, d))) {
+            Ok(f) => f,
+            Err(_) => continue,
+        };
+        let limit = 64.0 * n as f64 * log2(n as f64);
+        let key = format!("C05|part=primed|T=Cnt|primed_with={:?}|dir={}|n={}", bigs, dir_name(d), n);
+        let x: Vec<Complex<Cnt>> = dense_vec::<f64>(n, 9).iter().map(|c| Complex::new(Cnt(c.re), Cnt(c.im))).collect();
+        for e in [Entry::InPlace, Entry::Immut] {
+            let scr = vec![Complex::new(Cnt(0.0), Cnt(0.0)); e.scratch_len(f.as_ref())];
+            let out = if e.has_output() { vec![Complex::new(Cnt(0.0), Cnt(0.0)); n] } else { vec![] };
+            cnt_reset();
+            let co = call(f.as_ref(), e, &x, &out, &scr);
+            let c = cnt_get();
+            rep.evaluations += 1;
+            rep.transitions += 1;
+            rep.distinct_nontrivial += 1;
+            if co.out.is_none() {
+                continue;
+            }
+            let work = (c[OP_ADD as usize] + c[OP_SUB as usize] + c[OP_MUL as usize]) as f64;
+            if work > limit {
+                rep.violate(format!("{}|entry={}", key, e.name()), format!("after the planner had planned {:?}, the transform for n={} performs {} operations per chunk (> 64*n*log2(n) = {:.0})", bigs, n, work, limit), Json::Null);
+            }
+        }
+        let lim = 12 * n + 64;
+        for (nm, s) in [("inplace", f.get_inplace_scratch_len()), ("outofplace", f.get_outofplace_scratch_len()), ("immutable", f.get_immutable_scratch_len())] {
+            if s > lim {
+                rep.violate(format!("{}|clause=scratch:{}", key, nm), format!("after the planner had planned {:?}, n={} advertises {} scratch length {} (> 12n+64 = {})", bigs, n, nm, s, lim), Json::Null);
+            }
+        }
+    }
+}
+fn primed_sweep_float<T: Real>(pk: PK, bigs: &[usize], nmax: usize, rep: &mut Report) {
+    let mut pl = match AnyPlanner::<T>::new(pk) {
+        Some(p) => p,
+        None => return,
+    };
+    for &b in bigs {
+        let _ = plan_catch(&mut pl, b, FftDirection::Forward);
+        let _ = plan_catch(&mut pl, b, FftDirection::Inverse);
+    }
+    for n in 2..=nmax {
+        for d in DIRS {
+            vh::record(true);
+            let r = plan_catch(&mut pl, n, d);
+            let dfts = vh::take_dft_events();
+            vh::record(false);
+            let f = match r {
+                Ok(f) => f,
+                Err(_) => continue,
+            };
+            rep.evaluations += 1;
+            rep.transitions += 1;
+            rep.distinct_nontrivial += 1;
+            let key = format!("C05|part=primed|pk={}|T={}|primed_with={:?}|dir={}|n={}", pk.name(), T::NAME, bigs, dir_name(d), n);
+            if let Some(big) = dfts.iter().copied().filter(|&l| l > MAX_NAIVE).max() {
+                rep.violate(format!("{}|clause=naive", key), format!("after the planner had planned {:?}, the plan for {} constructs a naive DFT of length {}", bigs, n, big), Json::Null);
+            }
+            let lim = 12 * n + 64;
+            for (nm, s) in [("inplace", f.get_inplace_scratch_len()), ("outofplace", f.get_outofplace_scratch_len()), ("immutable", f.get_immutable_scratch_len())] {
+                if s > lim {
+                    rep.violate(format!("{}|clause=scratch:{}", key, nm), format!("after the planner had planned {:?}, n={} advertises {} scratch length {} (> 12n+64 = {})", bigs, n, nm, s, lim), Json::Null);
+                }
+            }
+        }
+    }
+}
+
 pub fn run(ctx: &Ctx) -> i32 {
     let t = ctx.tier;
     let mut rep = Report::new();
@@ -150,6 +229,15 @@ pub fn run(ctx: &Ctx) -> i32 {
             let mut r1 = Report::new();
             match m.get("part").map(|s| s.as_str()) {
                 Some("ops") => ops_len(n, &mut r1),
+                Some("primed") => {
+                    let bigs: Vec<usize> = m.get("primed_with").map(|s| s.trim_matches(|c| c == '[' || c == ']').split(',').filter_map(|x| x.trim().parse().ok()).collect()).unwrap_or_default();
+                    primed_sweep_cnt(&bigs, n, &mut r1);
+                    for pk in PK::DISTINCT {
+                        primed_sweep_float::<f32>(pk, &bigs, n, &mut r1);
+                        primed_sweep_float::<f64>(pk, &bigs, n, &mut r1);
+                    }
+                    r1.violations.retain(|v| v.key.contains(&format!("|n={}", n)));
+                }
                 Some("plan_only") => {
                     let pk = PK::parse(m.get("pk").map(|s| s.as_str()).unwrap_or("scalar")).unwrap_or(PK::Scalar);
                     plan_only_block::<f64>(pk, n, n + 1, &mut r1);
@@ -197,6 +285,32 @@ pub fn run(ctx: &Ctx) -> i32 {
     for p in parts.into_iter().rev() {
         rep.merge(p);
     }
+    // ---- histories [large lengths..., n]: the bounds must not depend on what the planner planned before
+    let primings: Vec<Vec<usize>> = vec![vec![16384, 65536], vec![3 * 4096, 4096], vec![10007, 2048], vec![1 << 15]];
+    let pn = t.pick(1024, 4096);
+    let mut pj: Vec<(usize, usize)> = Vec::new(); // (priming index, kind: 0 = Cnt, 1.. = planner x type)
+    for i in 0..primings.len() {
+        for k in 0..7 {
+            pj.push((i, k));
+        }
+    }
+    let parts = par_map(&pj, |_, &(i, k)| {
+        let mut r = Report::new();
+        let b = &primings[i];
+        match k {
+            0 => primed_sweep_cnt(b, pn, &mut r),
+            1 => primed_sweep_float::<f32>(PK::Scalar, b, pn, &mut r),
+            2 => primed_sweep_float::<f64>(PK::Scalar, b, pn, &mut r),
+            3 => primed_sweep_float::<f32>(PK::Sse, b, pn, &mut r),
+            4 => primed_sweep_float::<f64>(PK::Sse, b, pn, &mut r),
+            5 => primed_sweep_float::<f32>(PK::Avx, b, pn, &mut r),
+            _ => primed_sweep_float::<f64>(PK::Avx, b, pn, &mut r),
+        }
+        r
+    });
+    for p in parts {
+        rep.merge(p);
+    }
     let pmax: usize = t.pick(1 << 19, 1 << 22);
     let block = 8192;
     let mut blocks = Vec::new();
@@ -220,10 +334,11 @@ pub fn run(ctx: &Ctx) -> i32 {
     rep.sample(Json::Str(format!("C05|part=plan_only|pk=sse|T=f64|n={}", pmax - 1)));
     rep.set("pool_lengths_ops", Json::Arr(pool.iter().map(|x| Json::Int(x.0 as i64)).collect()));
     rep.rule = format!(
-        "(a) FftPlanner::<Cnt> (operation-counting element type) x {{fwd,inv}} x 4 entry points x every n in 2..={on} (+ pool lengths): +,-,* counted for one chunk on three inputs (zero, dense, special values) -- the three counts must be equal (input-independence decided, not assumed) and <= 64*n*log2(n); (b) planners {{auto,scalar,sse,avx}} x {{f32,f64}} x {{fwd,inv}} x every n in 0..={sn} (+ pool lengths): the construction event log (hook H4) contains no naive Dft of length > 32; (c) same range: the three advertised scratch lengths <= 12n+64; plan-only: scalar and SSE recipes for every n < {pm} contain no Dft node above 32. Non-trivial: n >= 2.",
+        "(a) FftPlanner::<Cnt> (operation-counting element type) x {{fwd,inv}} x 4 entry points x every n in 2..={on} (+ pool lengths): +,-,* counted for one chunk on three inputs (zero, dense, special values) -- the three counts must be equal (input-independence decided, not assumed) and <= 64*n*log2(n); (b) planners {{auto,scalar,sse,avx}} x {{f32,f64}} x {{fwd,inv}} x every n in 0..={sn} (+ pool lengths): the construction event log (hook H4) contains no naive Dft of length > 32; (c) same range: the three advertised scratch lengths <= 12n+64; plan-only: scalar and SSE recipes for every n < {pm} contain no Dft node above 32; primed planners: one planner first asked for large lengths ({{16384,65536}}, {{12288,4096}}, {{10007,2048}}, {{32768}}) and then for every n in 2..={pn}: operation count (Cnt), naive nodes and scratch bounds again. Non-trivial: n >= 2.",
         on = ops_n,
         sn = st_n,
-        pm = pmax
+        pm = pmax,
+        pn = pn
     );
     rep.exhaustive = true;
     rep.assumptions = vec!["operation counts are those of the portable generic code (what 'the portable planned transform' means); SIMD instruction counts are not observable".into(), "Dft construction events come from hook H4 in Dft::new".into()];
